@@ -178,9 +178,18 @@ def _faults(rec, got):
     return f
 
 
+def _coarse(f):
+    """fault name without level / side detail (the replay file has the detail); the order faults stay as they are"""
+    if f.startswith("merge-order|"):
+        return f
+    if f.startswith(("lost:", "kept:", "content:")):
+        return f.split("/")[0]
+    return f.split("@")[0].split(":")[0]
+
+
 def _sig(v):
     rec = v.get("rec") or {}
-    f = _faults(rec, v.get("got"))
+    f = {_coarse(x) for x in _faults(rec, v.get("got"))}
     return "impl|" + (",".join(sorted(f)) if f else "unexplained|" + str(rec.get("op")))
 
 
@@ -296,7 +305,7 @@ P = {
     "mc": [{"module": "MC_JarMerge", "cfg": "MC_JarMerge.cfg"}],
     "trace": {"module": "Trace_JarMerge", "cfg": "Trace_JarMerge.cfg"},
     "trace_s2i": 4000,
-    "i2s_n": {"quick": 600, "thorough": 6000},
+    "i2s_n": {"quick": 600, "thorough": 12000},
     "classify_vec": _cls,
     "classify_i2s": _cls_i2s,
     "required_classes": _required(),
